@@ -88,7 +88,8 @@ def run_prog(binfo, scratch, prog, route, plan):
     """Run a built program (route 'exe') or interpret it (route 'interp')."""
     if route == "interp":
         w = scratch.new()
-        r = worlds.compile_world(binfo, w, {prog["name"]: prog["text"]}, ["-Ginterp"], [prog["name"]],
+        # the interpreter runs the FOAM the optimiser left: same optimisation level as the executable
+        r = worlds.compile_world(binfo, w, {prog["name"]: prog["text"]}, ["-Ginterp"] + ([prog["q"]] if prog.get("q") else []), [prog["name"]],
                                  plan_extra=plan, cpu=prog.get("cpu_i", 120))
         vsim.cleanup_world(w)
         return r
@@ -136,7 +137,7 @@ def main(argv):
     with vsim.Scratch("c09") as scratch:
         if replay:
             rp = json.load(open(replay))
-            prog = {"name": rp["name"], "text": rp["source"].encode("latin-1")}
+            prog = {"name": rp["name"], "text": rp["source"].encode("latin-1"), "q": rp.get("q")}
             if rp["route"] == "exe":
                 d, msg = build_exe(binfo, scratch, prog["name"], prog["text"], rp["q"], rp["o"])
                 if not d:
